@@ -90,7 +90,7 @@ mod vharness {
     }
     fn same(a: &[u8], b: &[u8]) -> bool { if a.len() != b.len() { return false; } let mut i = 0; while i < a.len() { if a[i] != b[i] { return false; } i += 1; } true }
 
-    //@harness props=C14,C01 strength=proof clause="two adjacent \\uXXXX escapes in a quoted string, for EVERY pair of 16-bit code units and either hex-digit case: a non-surrogate first unit is that code point and the second escape is decoded independently (a lone surrogate there is an InvalidUtf16EscapeSequence error); a high surrogate followed by a low surrogate is the one supplementary code point 0x10000 + ((hi - 0xD800) << 10) + (lo - 0xDC00); any other surrogate combination is an InvalidUtf16EscapeSequence error naming both units; nothing is dropped or merged otherwise; the token spans the whole literal" timeout=900 replay=lex_unicode_pair
+    //@harness props=C14,C01 quickfor=C14 strength=proof clause="two adjacent \\uXXXX escapes in a quoted string, for EVERY pair of 16-bit code units and either hex-digit case: a non-surrogate first unit is that code point and the second escape is decoded independently (a lone surrogate there is an InvalidUtf16EscapeSequence error); a high surrogate followed by a low surrogate is the one supplementary code point 0x10000 + ((hi - 0xD800) << 10) + (lo - 0xDC00); any other surrogate combination is an InvalidUtf16EscapeSequence error naming both units; nothing is dropped or merged otherwise; the token spans the whole literal" timeout=900 replay=lex_unicode_pair
     #[kani::proof]
     #[kani::unwind(4)]
     fn quoted_unicode_escape_pair() {
@@ -128,7 +128,7 @@ mod vharness {
         kani::cover!(cu1 >= 0xD000 && cu1 < 0xD800, "cover:lexlit:hangul-range-first-unit");
     }
 
-    //@harness props=C14,C01 strength=proof clause="ONE \\uXXXX escape in a quoted string, EVERY 16-bit code unit, either hex case: a non-surrogate unit decodes to that code point; a surrogate not followed by another escape is an InvalidUtf16EscapeSequence error" timeout=900 replay=lex_unicode_pair
+    //@harness props=C14,C01 quickfor=C14 strength=proof clause="ONE \\uXXXX escape in a quoted string, EVERY 16-bit code unit, either hex case: a non-surrogate unit decodes to that code point; a surrogate not followed by another escape is an InvalidUtf16EscapeSequence error" timeout=900 replay=lex_unicode_pair
     #[kani::proof]
     #[kani::unwind(4)]
     fn quoted_unicode_escape_single() {
@@ -152,7 +152,7 @@ mod vharness {
         }
     }
 
-    //@harness props=C14,C01 strength=proof clause="\\uXXXX\\uYYYY in a quoted string whose first unit lies in U+D000..U+DFFF (all 4096: the surrogates and the 2048 code points below them that share their leading hex digit) and whose second unit is ANY 16-bit value (lower-case hex): a non-surrogate first unit is its own code point and the second escape is decoded independently; a high surrogate followed by a low surrogate is the one supplementary code point; any other surrogate combination is an error naming both units" timeout=1200 replay=lex_unicode_pair
+    //@harness props=C14,C01 quickfor=C14 strength=proof clause="\\uXXXX\\uYYYY in a quoted string whose first unit lies in U+D000..U+DFFF (all 4096: the surrogates and the 2048 code points below them that share their leading hex digit) and whose second unit is ANY 16-bit value (lower-case hex): a non-surrogate first unit is its own code point and the second escape is decoded independently; a high surrogate followed by a low surrogate is the one supplementary code point; any other surrogate combination is an error naming both units" timeout=1200 replay=lex_unicode_pair
     #[kani::proof]
     #[kani::unwind(4)]
     fn quoted_unicode_escape_pair_d_block() {
@@ -183,7 +183,7 @@ mod vharness {
         }
     }
 
-    //@harness props=C14,C01 strength=proof clause="single-character escapes, for EVERY byte after the backslash: \\\" \\' \\\\ \\/ \\b \\f \\n \\r \\t decode to exactly \" ' \\ / U+0008 U+000C U+000A U+000D U+0009; every other byte is an error (never silently kept or dropped)" timeout=600
+    //@harness props=C14,C01 quickfor=C14 strength=proof clause="single-character escapes, for EVERY byte after the backslash: \\\" \\' \\\\ \\/ \\b \\f \\n \\r \\t decode to exactly \" ' \\ / U+0008 U+000C U+000A U+000D U+0009; every other byte is an error (never silently kept or dropped)" timeout=600
     #[kani::proof]
     #[kani::unwind(4)]
     fn quoted_single_escape() {
@@ -205,7 +205,7 @@ mod vharness {
         }
     }
 
-    //@harness props=C14,C01 strength=bounded bound="text blocks of the shape ||| T '  a' T T '  b' T |||  with each of the four line terminators T either LF or CRLF (16 concrete inputs), and the same with |||-" clause="text-block value: indentation stripped, every line terminator - including that of a fully empty line - kept exactly as written (LF or CRLF), |||- drops only the final LF; the token spans the whole block" timeout=900 replay=lex_textblock
+    //@harness props=C14,C01 quickfor=C14 strength=bounded bound="text blocks of the shape ||| T '  a' T T '  b' T |||  with each of the four line terminators T either LF or CRLF (16 concrete inputs), and the same with |||-" clause="text-block value: indentation stripped, every line terminator - including that of a fully empty line - kept exactly as written (LF or CRLF), |||- drops only the final LF; the token spans the whole block" timeout=900 replay=lex_textblock
     #[kani::proof]
     #[kani::unwind(40)]
     fn textblock_line_terminators() {
